@@ -109,10 +109,21 @@ theorem Edges.stepL {s t : St} {ev : Ev} (hI : Inv s) (hs : PE.stepL s ev = some
   all_goals (intro r0 r0' hr0 hr0'; rcases Phase.cases r0.phase with hp0 | hp0 | hp0 | hp0 | hp0 | hp0)
   all_goals grind [SnapOK, pStatusOK_true, NotRunning, Rec.enis, Rec.fixed, mem_enis, mem_setAtt, mem_remove, Sorted.inj, markDel_uid, markDel_phase, markDel_allocs, markDel_del, markDel_ver, markDel_of_del, markDel_fixed, markDel_lastSeen, pAfterDel, pAfterCre, GPend, PodSeen.requires, J2, J3, PDel, PCre, PUpd, PRec, EDet, EAtt, EDel, GSeen, CSort, CLt, RLt, PMade, PRoll, LCandD, LCandL, LList, ObsLe, ObsLs, PUpdDl, PDelNF, Acc, documented, undocumented, Phase.busy, cases Phase]
 
+theorem Edges.stepD {s t : St} {ev : Ev} (hI : Inv s) (hs : PE.stepD s ev = some t) :
+    ∀ r r', s.rcd = some r → t.rcd = some r' → r'.phase = r.phase ∨ documented r.phase r'.phase ∨ undocumented r.phase r'.phase := by
+  unfold PE.stepD at hs
+  split at hs
+  · split at hs
+    · cases hs
+      have hcs := hI.i3.fCSort
+      grind [pulls, failedDelete, documented, undocumented, Sorted.inj, CSort]
+    · cases hs
+  · cases hs
+
 theorem Edges.step {s t : St} {ev : Ev} (hI : Inv s) (hs : PE.step s ev = some t) :
     ∀ r r', s.rcd = some r → t.rcd = some r' → r'.phase = r.phase ∨ documented r.phase r'.phase ∨ undocumented r.phase r'.phase := by
   cases ev <;> simp only [PE.step] at hs <;>
-    first | exact Edges.stepEnv hI hs | exact Edges.stepP hI hs | exact Edges.stepE hI hs | exact Edges.stepG hI hs | exact Edges.stepL hI hs
+    first | exact Edges.stepEnv hI hs | exact Edges.stepP hI hs | exact Edges.stepE hI hs | exact Edges.stepG hI hs | exact Edges.stepL hI hs | exact Edges.stepD hI hs
 
 set_option maxHeartbeats 4000000 in
 theorem Removed.stepEnv {s t : St} {ev : Ev} (hI : Inv s) (hs : PE.stepEnv s ev = some t) :
@@ -164,10 +175,21 @@ theorem Removed.stepL {s t : St} {ev : Ev} (hI : Inv s) (hs : PE.stepL s ev = so
   all_goals (try simp only [bump_some _ _ _ (by assumption : s.rcd = some _)])
   all_goals grind [SnapOK, pStatusOK_true, NotRunning, Rec.enis, Rec.fixed, mem_enis, mem_setAtt, mem_remove, Sorted.inj, markDel_uid, markDel_phase, markDel_allocs, markDel_del, markDel_ver, markDel_of_del, markDel_fixed, markDel_lastSeen, pAfterDel, pAfterCre, GPend, PodSeen.requires, J2, J3, PDel, PCre, PUpd, PRec, EDet, EAtt, EDel, GSeen, CSort, CLt, RLt, PMade, PRoll, LCandD, LCandL, LList, ObsLe, ObsLs, PUpdDl, PDelNF, Acc]
 
+theorem Removed.stepD {s t : St} {ev : Ev} (hI : Inv s) (hs : PE.stepD s ev = some t) :
+    ∀ r, s.rcd = some r → t.rcd = none → r.del = true := by
+  unfold PE.stepD at hs
+  split at hs
+  · split at hs
+    · cases hs
+      have hcs := hI.i3.fCSort
+      grind [pulls, failedDelete, documented, undocumented, Sorted.inj, CSort]
+    · cases hs
+  · cases hs
+
 theorem Removed.step {s t : St} {ev : Ev} (hI : Inv s) (hs : PE.step s ev = some t) :
     ∀ r, s.rcd = some r → t.rcd = none → r.del = true := by
   cases ev <;> simp only [PE.step] at hs <;>
-    first | exact Removed.stepEnv hI hs | exact Removed.stepP hI hs | exact Removed.stepE hI hs | exact Removed.stepG hI hs | exact Removed.stepL hI hs
+    first | exact Removed.stepEnv hI hs | exact Removed.stepP hI hs | exact Removed.stepE hI hs | exact Removed.stepG hI hs | exact Removed.stepL hI hs | exact Removed.stepD hI hs
 
 set_option maxHeartbeats 4000000 in
 theorem DelReq.stepEnv {s t : St} {ev : Ev} (hI : Inv s) (hs : PE.stepEnv s ev = some t) :
@@ -219,10 +241,21 @@ theorem DelReq.stepL {s t : St} {ev : Ev} (hI : Inv s) (hs : PE.stepL s ev = som
   all_goals (try simp only [bump_some _ _ _ (by assumption : s.rcd = some _)])
   all_goals grind [SnapOK, pStatusOK_true, NotRunning, Rec.enis, Rec.fixed, mem_enis, mem_setAtt, mem_remove, Sorted.inj, markDel_uid, markDel_phase, markDel_allocs, markDel_del, markDel_ver, markDel_of_del, markDel_fixed, markDel_lastSeen, pAfterDel, pAfterCre, GPend, PodSeen.requires, J2, J3, PDel, PCre, PUpd, PRec, EDet, EAtt, EDel, GSeen, CSort, CLt, RLt, PMade, PRoll, LCandD, LCandL, LList, ObsLe, ObsLs, PUpdDl, PDelNF, Acc]
 
+theorem DelReq.stepD {s t : St} {ev : Ev} (hI : Inv s) (hs : PE.stepD s ev = some t) :
+    ∀ r r', s.rcd = some r → t.rcd = some r' → r.del = false → r'.del = true → (ev = .eDeleteRec .ok ∧ r.phase = .deleting) ∨ (ev = .pDeleteRec .ok ∧ r.fixed = false ∧ NotRunning s r.uid) := by
+  unfold PE.stepD at hs
+  split at hs
+  · split at hs
+    · cases hs
+      have hcs := hI.i3.fCSort
+      grind [pulls, failedDelete, documented, undocumented, Sorted.inj, CSort]
+    · cases hs
+  · cases hs
+
 theorem DelReq.step {s t : St} {ev : Ev} (hI : Inv s) (hs : PE.step s ev = some t) :
     ∀ r r', s.rcd = some r → t.rcd = some r' → r.del = false → r'.del = true → (ev = .eDeleteRec .ok ∧ r.phase = .deleting) ∨ (ev = .pDeleteRec .ok ∧ r.fixed = false ∧ NotRunning s r.uid) := by
   cases ev <;> simp only [PE.step] at hs <;>
-    first | exact DelReq.stepEnv hI hs | exact DelReq.stepP hI hs | exact DelReq.stepE hI hs | exact DelReq.stepG hI hs | exact DelReq.stepL hI hs
+    first | exact DelReq.stepEnv hI hs | exact DelReq.stepP hI hs | exact DelReq.stepE hI hs | exact DelReq.stepG hI hs | exact DelReq.stepL hI hs | exact DelReq.stepD hI hs
 
 set_option maxHeartbeats 4000000 in
 theorem NoPull.stepEnv {s t : St} {ev : Ev} (hI : Inv s) (hs : PE.stepEnv s ev = some t) :
@@ -274,10 +307,21 @@ theorem NoPull.stepL {s t : St} {ev : Ev} (hI : Inv s) (hs : PE.stepL s ev = som
   all_goals (try simp only [bump_some _ _ _ (by assumption : s.rcd = some _)])
   all_goals grind [SnapOK, pStatusOK_true, NotRunning, Rec.enis, Rec.fixed, mem_enis, mem_setAtt, mem_remove, Sorted.inj, markDel_uid, markDel_phase, markDel_allocs, markDel_del, markDel_ver, markDel_of_del, markDel_fixed, markDel_lastSeen, pAfterDel, pAfterCre, GPend, PodSeen.requires, J2, J3, PDel, PCre, PUpd, PRec, EDet, EAtt, EDel, GSeen, CSort, CLt, RLt, PMade, PRoll, LCandD, LCandL, LList, ObsLe, ObsLs, PUpdDl, PDelNF, Acc, pulls, Protected, List.contains_iff_mem, List.mem_map]
 
+theorem NoPull.stepD {s t : St} {ev : Ev} (hI : Inv s) (hs : PE.stepD s ev = some t) :
+    ∀ id, pulls ev = some id → ¬ Protected s id := by
+  unfold PE.stepD at hs
+  split at hs
+  · split at hs
+    · cases hs
+      have hcs := hI.i3.fCSort
+      grind [pulls, failedDelete, documented, undocumented, Sorted.inj, CSort]
+    · cases hs
+  · cases hs
+
 theorem NoPull.step {s t : St} {ev : Ev} (hI : Inv s) (hs : PE.step s ev = some t) :
     ∀ id, pulls ev = some id → ¬ Protected s id := by
   cases ev <;> simp only [PE.step] at hs <;>
-    first | exact NoPull.stepEnv hI hs | exact NoPull.stepP hI hs | exact NoPull.stepE hI hs | exact NoPull.stepG hI hs | exact NoPull.stepL hI hs
+    first | exact NoPull.stepEnv hI hs | exact NoPull.stepP hI hs | exact NoPull.stepE hI hs | exact NoPull.stepG hI hs | exact NoPull.stepL hI hs | exact NoPull.stepD hI hs
 
 set_option maxHeartbeats 4000000 in
 theorem Leaked.stepEnv {s t : St} {ev : Ev} (hI : Inv s) (hs : PE.stepEnv s ev = some t) :
@@ -329,10 +373,21 @@ theorem Leaked.stepL {s t : St} {ev : Ev} (hI : Inv s) (hs : PE.stepL s ev = som
   all_goals (try simp only [bump_some _ _ _ (by assumption : s.rcd = some _)])
   all_goals grind [SnapOK, pStatusOK_true, NotRunning, Rec.enis, Rec.fixed, mem_enis, mem_setAtt, mem_remove, Sorted.inj, markDel_uid, markDel_phase, markDel_allocs, markDel_del, markDel_ver, markDel_of_del, markDel_fixed, markDel_lastSeen, pAfterDel, pAfterCre, GPend, PodSeen.requires, J2, J3, PDel, PCre, PUpd, PRec, EDet, EAtt, EDel, GSeen, CSort, CLt, RLt, PMade, PRoll, LCandD, LCandL, LList, ObsLe, ObsLs, PUpdDl, PDelNF, Acc, failedDelete]
 
+theorem Leaked.stepD {s t : St} {ev : Ev} (hI : Inv s) (hs : PE.stepD s ev = some t) :
+    t.leaked ≠ s.leaked → failedDelete ev = true := by
+  unfold PE.stepD at hs
+  split at hs
+  · split at hs
+    · cases hs
+      have hcs := hI.i3.fCSort
+      grind [pulls, failedDelete, documented, undocumented, Sorted.inj, CSort]
+    · cases hs
+  · cases hs
+
 theorem Leaked.step {s t : St} {ev : Ev} (hI : Inv s) (hs : PE.step s ev = some t) :
     t.leaked ≠ s.leaked → failedDelete ev = true := by
   cases ev <;> simp only [PE.step] at hs <;>
-    first | exact Leaked.stepEnv hI hs | exact Leaked.stepP hI hs | exact Leaked.stepE hI hs | exact Leaked.stepG hI hs | exact Leaked.stepL hI hs
+    first | exact Leaked.stepEnv hI hs | exact Leaked.stepP hI hs | exact Leaked.stepE hI hs | exact Leaked.stepG hI hs | exact Leaked.stepL hI hs | exact Leaked.stepD hI hs
 
 set_option maxHeartbeats 4000000 in
 theorem AllocsSame.stepEnv {s t : St} {ev : Ev} (hI : Inv s) (hs : PE.stepEnv s ev = some t) :
@@ -384,10 +439,21 @@ theorem AllocsSame.stepL {s t : St} {ev : Ev} (hI : Inv s) (hs : PE.stepL s ev =
   all_goals (try simp only [bump_some _ _ _ (by assumption : s.rcd = some _)])
   all_goals grind [SnapOK, pStatusOK_true, NotRunning, Rec.enis, Rec.fixed, mem_enis, mem_setAtt, mem_remove, Sorted.inj, markDel_uid, markDel_phase, markDel_allocs, markDel_del, markDel_ver, markDel_of_del, markDel_fixed, markDel_lastSeen, pAfterDel, pAfterCre, GPend, PodSeen.requires, J2, J3, PDel, PCre, PUpd, PRec, EDet, EAtt, EDel, GSeen, CSort, CLt, RLt, PMade, PRoll, LCandD, LCandL, LList, ObsLe, ObsLs, PUpdDl, PDelNF, Acc]
 
+theorem AllocsSame.stepD {s t : St} {ev : Ev} (hI : Inv s) (hs : PE.stepD s ev = some t) :
+    ∀ r r', s.rcd = some r → t.rcd = some r' → r'.allocs = r.allocs := by
+  unfold PE.stepD at hs
+  split at hs
+  · split at hs
+    · cases hs
+      have hcs := hI.i3.fCSort
+      grind [pulls, failedDelete, documented, undocumented, Sorted.inj, CSort]
+    · cases hs
+  · cases hs
+
 theorem AllocsSame.step {s t : St} {ev : Ev} (hI : Inv s) (hs : PE.step s ev = some t) :
     ∀ r r', s.rcd = some r → t.rcd = some r' → r'.allocs = r.allocs := by
   cases ev <;> simp only [PE.step] at hs <;>
-    first | exact AllocsSame.stepEnv hI hs | exact AllocsSame.stepP hI hs | exact AllocsSame.stepE hI hs | exact AllocsSame.stepG hI hs | exact AllocsSame.stepL hI hs
+    first | exact AllocsSame.stepEnv hI hs | exact AllocsSame.stepP hI hs | exact AllocsSame.stepE hI hs | exact AllocsSame.stepG hI hs | exact AllocsSame.stepL hI hs | exact AllocsSame.stepD hI hs
 
 set_option maxHeartbeats 4000000 in
 theorem BindAtt.stepE {s t : St} {ev : Ev} (hI : Inv s) (hs : PE.stepE s ev = some t) :
@@ -449,10 +515,21 @@ theorem IpSame.stepL {s t : St} {ev : Ev} (hI : Inv s) (hs : PE.stepL s ev = som
   all_goals (try simp only [bump_some _ _ _ (by assumption : s.rcd = some _)])
   all_goals grind [SnapOK, pStatusOK_true, NotRunning, Rec.enis, Rec.fixed, mem_enis, mem_setAtt, mem_remove, Sorted.inj, markDel_uid, markDel_phase, markDel_allocs, markDel_del, markDel_ver, markDel_of_del, markDel_fixed, markDel_lastSeen, pAfterDel, pAfterCre, GPend, PodSeen.requires, J2, J3, PDel, PCre, PUpd, PRec, EDet, EAtt, EDel, GSeen, CSort, CLt, RLt, PMade, PRoll, LCandD, LCandL, LList, ObsLe, ObsLs, PUpdDl, PDelNF, Acc, List.mem_append]
 
+theorem IpSame.stepD {s t : St} {ev : Ev} (hI : Inv s) (hs : PE.stepD s ev = some t) :
+    ∀ en ∈ s.cloud, ∀ en' ∈ t.cloud, en'.id = en.id → en'.ip = en.ip := by
+  unfold PE.stepD at hs
+  split at hs
+  · split at hs
+    · cases hs
+      have hcs := hI.i3.fCSort
+      grind [pulls, failedDelete, documented, undocumented, Sorted.inj, CSort]
+    · cases hs
+  · cases hs
+
 theorem IpSame.step {s t : St} {ev : Ev} (hI : Inv s) (hs : PE.step s ev = some t) :
     ∀ en ∈ s.cloud, ∀ en' ∈ t.cloud, en'.id = en.id → en'.ip = en.ip := by
   cases ev <;> simp only [PE.step] at hs <;>
-    first | exact IpSame.stepEnv hI hs | exact IpSame.stepP hI hs | exact IpSame.stepE hI hs | exact IpSame.stepG hI hs | exact IpSame.stepL hI hs
+    first | exact IpSame.stepEnv hI hs | exact IpSame.stepP hI hs | exact IpSame.stepE hI hs | exact IpSame.stepG hI hs | exact IpSame.stepL hI hs | exact IpSame.stepD hI hs
 
 set_option maxHeartbeats 4000000 in
 theorem Ttl.stepG {s t : St} {ev : Ev} (hI : Inv s) (hs : PE.stepG s ev = some t) :
@@ -514,10 +591,21 @@ theorem OnlyG.stepL {s t : St} {ev : Ev} (hI : Inv s) (hs : PE.stepL s ev = some
   all_goals (try simp only [bump_some _ _ _ (by assumption : s.rcd = some _)])
   all_goals grind [SnapOK, pStatusOK_true, NotRunning, Rec.enis, Rec.fixed, mem_enis, mem_setAtt, mem_remove, Sorted.inj, markDel_uid, markDel_phase, markDel_allocs, markDel_del, markDel_ver, markDel_of_del, markDel_fixed, markDel_lastSeen, pAfterDel, pAfterCre, GPend, PodSeen.requires, J2, J3, PDel, PCre, PUpd, PRec, EDet, EAtt, EDel, GSeen, CSort, CLt, RLt, PMade, PRoll, LCandD, LCandL, LList, ObsLe, ObsLs, PUpdDl, PDelNF, Acc, cases Phase]
 
+theorem OnlyG.stepD {s t : St} {ev : Ev} (hI : Inv s) (hs : PE.stepD s ev = some t) :
+    ∀ c c', s.rcd = some c → c.fixed = true → t.rcd = some c' → ((c'.phase = .deleting ∧ c.phase ≠ .deleting) → ∃ ver, ev = .gReap ver .ok) ∧ ((c'.del = true ∧ c.del = false) → c.phase = .deleting) := by
+  unfold PE.stepD at hs
+  split at hs
+  · split at hs
+    · cases hs
+      have hcs := hI.i3.fCSort
+      grind [pulls, failedDelete, documented, undocumented, Sorted.inj, CSort]
+    · cases hs
+  · cases hs
+
 theorem OnlyG.step {s t : St} {ev : Ev} (hI : Inv s) (hs : PE.step s ev = some t) :
     ∀ c c', s.rcd = some c → c.fixed = true → t.rcd = some c' → ((c'.phase = .deleting ∧ c.phase ≠ .deleting) → ∃ ver, ev = .gReap ver .ok) ∧ ((c'.del = true ∧ c.del = false) → c.phase = .deleting) := by
   cases ev <;> simp only [PE.step] at hs <;>
-    first | exact OnlyG.stepEnv hI hs | exact OnlyG.stepP hI hs | exact OnlyG.stepE hI hs | exact OnlyG.stepG hI hs | exact OnlyG.stepL hI hs
+    first | exact OnlyG.stepEnv hI hs | exact OnlyG.stepP hI hs | exact OnlyG.stepE hI hs | exact OnlyG.stepG hI hs | exact OnlyG.stepL hI hs | exact OnlyG.stepD hI hs
 
 set_option maxHeartbeats 4000000 in
 theorem LeakReap.stepL {s t : St} {ev : Ev} (hI : Inv s) (hs : PE.stepL s ev = some t) :
